@@ -87,7 +87,10 @@ type sharedRun struct {
 	maxViolPer int
 }
 
+var hexAddr = regexp.MustCompile(`0x[0-9a-f]{6,}`)
+
 func (i *interpreter) recordViolation(label string, extra *Term) {
+	label = hexAddr.ReplaceAllString(label, "0x…") // addresses differ from path to path
 	sh := i.h.shared
 	m := i.model(extra)
 	var sb strings.Builder
